@@ -45,7 +45,7 @@ func isWork(in ssa.Instruction) bool {
 			// a local: struct literal under construction, varargs array of a log call — unless it is a named
 			// variable that lives in memory because a closure captures it or its address is taken: an
 			// assignment to it that disappears changes what the closure or the later code sees
-			if al.Heap && a == x.Addr && isSourceVar(al) {
+			if isSourceVar(al) && (al.Heap && a == x.Addr || isStructVar(al)) {
 				return true
 			}
 			return false
@@ -81,6 +81,17 @@ func isSourceVar(al *ssa.Alloc) bool {
 		return false
 	}
 	return !strings.Contains(al.Comment, ".") // "t0.f" style spills
+}
+
+// isStructVar: a named local (or named result) of struct type: it is assigned field by field or as a whole
+// through memory, so no phi shows which assignment reaches a use.
+func isStructVar(al *ssa.Alloc) bool {
+	pt, ok := al.Type().Underlying().(*types.Pointer)
+	if !ok {
+		return false
+	}
+	_, isStruct := pt.Elem().Underlying().(*types.Struct)
+	return isStruct
 }
 
 // SkipRows lists the skip conditions of fn.
@@ -541,6 +552,10 @@ func SkipRows(fn *ssa.Function) []string {
 					}
 					if al, isAl := x.Addr.(*ssa.Alloc); isAl {
 						f = "<local " + shortType(al.Type().(*types.Pointer).Elem()) + ">"
+					} else if fa, isFA := x.Addr.(*ssa.FieldAddr); isFA {
+						if al, isAl := fa.X.(*ssa.Alloc); isAl {
+							f = "<local " + shortType(al.Type().(*types.Pointer).Elem()) + ">." + f
+						}
 					}
 					name = "store ." + f + " = " + clip(argText(x.Val), 140)
 				case *ssa.MapUpdate:
